@@ -149,7 +149,7 @@ impl<T> Slots<T> {
     }
     pub fn iter_mut(&mut self) -> SlotIterMut<'_, T> {
         let n = if self.n < CAP { self.n } else { CAP };
-        SlotIterMut { it: self.a[..n].iter_mut() }
+        SlotIterMut { a: &mut self.a as *mut [Option<T>; CAP], lo: 0, hi: n, _m: PhantomData }
     }
     pub fn take_all(&mut self) -> IntoIter<T> {
         let n = if self.n < CAP { self.n } else { CAP };
@@ -255,27 +255,39 @@ impl<'a, T> Clone for SlotIter<'a, T> {
         SlotIter { a: self.a, lo: self.lo, hi: self.hi }
     }
 }
-/// mutable iterator over live slots
+/// mutable iterator over live slots.  Index-based through a raw pointer to the slot array (a
+/// `slice::IterMut` walks element pointers, which CBMC resolves with byte-level accesses on the
+/// whole array object); every index is handed out at most once, so the `&mut` never alias.
 pub struct SlotIterMut<'a, T> {
-    it: std::slice::IterMut<'a, Option<T>>,
+    a: *mut [Option<T>; CAP],
+    lo: usize,
+    hi: usize,
+    _m: PhantomData<&'a mut T>,
 }
 impl<'a, T> Iterator for SlotIterMut<'a, T> {
     type Item = &'a mut T;
     fn next(&mut self) -> Option<&'a mut T> {
-        match self.it.next() {
-            Some(o) => o.as_mut(),
-            None => None,
+        if self.lo < self.hi && self.lo < CAP {
+            let i = self.lo;
+            self.lo += 1;
+            unsafe { (*self.a)[i].as_mut() }
+        } else {
+            None
         }
     }
     fn size_hint(&self) -> (usize, Option<usize>) {
-        self.it.size_hint()
+        let k = if self.lo < self.hi { self.hi - self.lo } else { 0 };
+        (k, Some(k))
     }
 }
 impl<'a, T> DoubleEndedIterator for SlotIterMut<'a, T> {
     fn next_back(&mut self) -> Option<&'a mut T> {
-        match self.it.next_back() {
-            Some(o) => o.as_mut(),
-            None => None,
+        if self.lo < self.hi && self.hi <= CAP {
+            self.hi -= 1;
+            let i = self.hi;
+            unsafe { (*self.a)[i].as_mut() }
+        } else {
+            None
         }
     }
 }
